@@ -177,7 +177,14 @@ def build (spec):
     for l in spec.get ('loads') or []:
         if 'at' in l:
             idx, sgn = locate (m, l ['at'])
-            ld = MM.Impedance_Load (complex (*l ['z']))
+            if l ['k'] == 'rlc':
+                ld = MM.Series_RLC_Load (R = l ['R'], L = l ['L'], C = l ['C'])
+            elif l ['k'] == 'trap':
+                ld = MM.Trap_Load (l ['R'], l ['L'], l ['C'])
+            elif l ['k'] == 'lap':
+                ld = MM.Laplace_Load (a = l ['a'], b = l ['b'])
+            else:
+                ld = MM.Impedance_Load (complex (*l ['z']))
             common.guarded (lambda: m.register_load (ld, idx), 'register_load')
     return m
 # end def build
